@@ -7,11 +7,29 @@ class TooManyStates(Exception):
     pass
 
 
-def run(fn, init_states, transfer, refine=None, limit=20000, observe_edge=None):
+def switch_edges(fn, bid):
+    """For a block terminated by a switch: [(succ, case value or None for the default / fall-out edge, all case values)]."""
+    b = fn.blocks[bid]
+    out, vals = [], []
+    for s_, r in zip(b.succs, b.reach):
+        if not r or s_ < 0:
+            continue
+        lab = fn.blocks[s_].label
+        ln = fn.node(lab) if lab is not None else None
+        v = None
+        if ln is not None and ln.kind == "CaseStmt" and ln.get("casev") is not None:
+            v = int(ln.get("casev"))
+            vals.append(v)
+        out.append((s_, v))
+    return [(s_, v, tuple(vals)) for s_, v in out]
+
+
+def run(fn, init_states, transfer, refine=None, limit=20000, observe_edge=None, refine_switch=None):
     """Forward analysis. States are hashable. Returns (in_states, exit_states).
 
     transfer(node, state) -> iterable of successor states (empty = path ends)
     refine(cond_node, truth, state) -> iterable of states (empty = infeasible)
+    refine_switch(cond_node, case value | None, all case values, state) -> iterable of states, for switch edges
     """
     ins = {b: set() for b in fn.blocks}
     ins[fn.entry] = set(init_states)
@@ -30,6 +48,24 @@ def run(fn, init_states, transfer, refine=None, limit=20000, observe_edge=None):
             if not cur:
                 break
         if not cur:
+            continue
+        if refine_switch is not None and blk.termkind == "SwitchStmt" and blk.cond is not None and not blk.noret:
+            cn = fn.node(blk.cond)
+            for succ, cv_, allv in switch_edges(fn, bid):
+                out = set()
+                for s in cur:
+                    for t in refine_switch(cn, cv_, allv, s):
+                        out.add(t)
+                if observe_edge is not None:
+                    observe_edge(bid, succ, out)
+                new = out - ins[succ]
+                if new:
+                    ins[succ] |= new
+                    total += len(new)
+                    if total > limit:
+                        raise TooManyStates(fn.qn)
+                    if succ not in work:
+                        work.append(succ)
             continue
         for succ, cond, truth in fn.branch_edges(bid):
             out = set()
@@ -323,6 +359,8 @@ def sem_eval(n, val):
             if a is not None and ((n.op == "&&" and not a) or (n.op == "||" and a)):
                 return int(bool(a))
             b = sem_eval(n.children[1], val)
+            if b is not None and ((n.op == "&&" and not b) or (n.op == "||" and b)):
+                return int(bool(b))           # Kleene: decided by the known operand (operands are side-effect free here)
             if a is None or b is None:
                 return None
             return int(bool(a) and bool(b)) if n.op == "&&" else int(bool(a) or bool(b))
@@ -334,3 +372,52 @@ def sem_eval(n, val):
     if k in ("ImplicitCastExpr", "ParenExpr") and n.children:
         return sem_eval(n.children[0], val)
     return val(n)
+
+
+# ---- path-sensitive enumeration of the values of never-assigned scalars (parameters: conversion letter, size modifier) ----
+
+def value_states(fn, domains, observe, other=-99999):
+    """domains: {decl id: iterable of int values}. Runs the CFG once per combination of values (plus `other` for each
+    variable), refining on every branch / switch whose condition can be evaluated from those variables (through the
+    parameter bindings of virtually inlined helpers), and calls observe(node, {decl id: value}) for every element
+    reached in that state."""
+    import itertools
+    keys = sorted(domains)
+    init = [tuple(c) for c in itertools.product(*[list(sorted(set(domains[k]))) + [other] for k in keys])]
+    bm = fn.bind_map()
+
+    def leaf_val(st):
+        def val(x):
+            x = x.strip()
+            if x.kind == "DeclRefExpr":
+                d = x.d["d"]
+                if d in bm:
+                    return sem_eval(fn.node(bm[d]), val)
+                if d in keys:
+                    return st[keys.index(d)]      # `other` is a value distinct from every constant of the domain
+                if x.get("dk") == "EnumConstant" or x.get("cv") is not None:
+                    return x.cv()
+            return None
+        return val
+
+    def transfer(n, st):
+        observe(n, dict(zip(keys, st)))
+        return [st]
+
+    def refine(cond, truth, st):
+        v = sem_eval(cond, leaf_val(st))
+        if v is None or bool(v) == truth:
+            return [st]
+        # `other` stands for every value outside the domain: a comparison with an in-domain constant is decided,
+        # anything else stays unknown (sem_eval returned None for it)
+        return []
+
+    def refine_switch(cond, casev, allv, st):
+        v = sem_eval(cond, leaf_val(st))
+        if v is None:
+            return [st]
+        if casev is None:
+            return [st] if v not in allv else []
+        return [st] if v == casev else []
+
+    run(fn, init, transfer, refine, limit=400000, refine_switch=refine_switch)
